@@ -1,6 +1,7 @@
 (** Proofs about Model/GlobCacheSize.v: a cache created with a positive size never
-    panics; with size 0 every first lookup panics; with a negative size creating the
-    cache panics.  config.Load accepts all of them. *)
+    panics; config.Load accepts exactly the positive sizes (fix e17deb4), hence an
+    accepted configuration never panics the cache.  Before the fix every size was
+    accepted: 0 panics at the first lookup, a negative size when the cache is created. *)
 From Coq Require Import String List NArith ZArith Bool Lia Arith.
 Local Open Scope string_scope.
 From Fabio Require Import Lib.Outcome Lib.Bytes Model.GlobCacheSize.
@@ -67,25 +68,55 @@ Proof.
   - exfalso. apply Hnp. rewrite <- El. left. reflexivity.
 Qed.
 
-(* size = 0 is accepted and the first lookup of any compilable pattern panics *)
-Theorem size_zero_first_use_panics p :
-  load_accepts_glob_cache_size 0 = true /\ first_use 0 p = Ok [Panic].
+(* config.Load accepts exactly the sizes > 0 (load.go:364, fix e17deb4) ... *)
+Lemma load_accepts_iff size : load_accepts_glob_cache_size size = true <-> (0 < size)%Z.
+Proof. unfold load_accepts_glob_cache_size. apply Z.ltb_lt. Qed.
+
+(* ... so an accepted configuration never panics the glob cache: for EVERY configured
+   size and every sequence of lookups, either Load returns an error or creating the
+   cache and all lookups succeed without panic *)
+Theorem accepted_never_panics size calls :
+  load_then_use size calls = Err 1%N \/
+  exists l, load_then_use size calls = Ok l /\ ~ In Panic l.
+Proof.
+  unfold load_then_use. destruct (load_accepts_glob_cache_size size) eqn:E.
+  - right. apply globcache_ok_on_domain. apply load_accepts_iff. exact E.
+  - left. reflexivity.
+Qed.
+
+Corollary accepted_runnable size p :
+  load_accepts_glob_cache_size size = true -> runnable size p = true.
+Proof. intros H. apply runnable_on_domain. apply load_accepts_iff. exact H. Qed.
+
+(* ---- before fix e17deb4 (repaired in /repo): no check at load time ---- *)
+(* size = 0 was accepted and the first lookup of any compilable pattern panics *)
+Theorem unrepaired_size_zero_first_use_panics p :
+  load_accepts_glob_cache_size_unrepaired 0 = true /\ load_then_use_unrepaired 0 [(p, true)] = Ok [Panic].
 Proof. split; reflexivity. Qed.
 
-(* size < 0 is accepted and creating the cache panics *)
-Theorem size_negative_panics size p :
-  (size < 0)%Z -> load_accepts_glob_cache_size size = true /\ first_use size p = Panic.
+(* size < 0 was accepted and creating the cache panics *)
+Theorem unrepaired_size_negative_panics size p :
+  (size < 0)%Z ->
+  load_accepts_glob_cache_size_unrepaired size = true /\ load_then_use_unrepaired size [(p, true)] = Panic.
 Proof.
-  intros Hs. split; [reflexivity|]. unfold first_use, glob_session, new_glob_cache.
+  intros Hs. split; [reflexivity|].
+  unfold load_then_use_unrepaired, load_accepts_glob_cache_size_unrepaired, glob_session, new_glob_cache.
   apply Z.ltb_lt in Hs. rewrite Hs. reflexivity.
 Qed.
 
+(* the cache itself is unchanged: it still must not be created with a size <= 0 *)
 Theorem not_runnable_outside_domain size p : (size <= 0)%Z -> runnable size p = false.
 Proof.
   intros Hs. unfold runnable. destruct (Z.eq_dec size 0) as [->|Hn].
   - reflexivity.
-  - destruct (size_negative_panics size p ltac:(lia)) as [_ E]. rewrite E. reflexivity.
+  - unfold first_use, glob_session, new_glob_cache.
+    assert (E : (size <? 0)%Z = true) by (apply Z.ltb_lt; lia). rewrite E. reflexivity.
 Qed.
+
+Example load_then_use_nonvacuous :
+  load_then_use 0 [(bs "a", true)] = Err 1%N /\ load_then_use (-3) [(bs "a", true)] = Err 1%N /\
+  load_then_use 1 [(bs "a", true); (bs "b", true); (bs "a", true)] = Ok [Ok false; Ok false; Ok false].
+Proof. vm_compute. repeat split. Qed.
 
 Example globcache_nonvacuous :
   glob_session 2 [(bs "a", true); (bs "b", true); (bs "a", true); (bs "c", true); (bs "[", false); (bs "a", true)]
